@@ -197,7 +197,7 @@ def parseRecSpec : List String → Option Rec
 /-- Database operations go through the registry front (`rstep`): for every storage but a runtime registry that has
     not been injected yet this is `step`. -/
 def doOp (d : D) (st : St) (op : Op) : D × String :=
-  let (st', o) := rstep st (.db op)
+  let (st', o) := if st.cfg.kind == .reg then rstep st (.db op) else dstep st op
   ({ d with st := some st' }, fmtOut d o)
 
 def doROp (d : D) (st : St) (op : ROp) : D × String :=
@@ -233,7 +233,7 @@ def handle (d : D) (line : String) : D × String :=
   | ["db", kind, sh] =>
     if d.st.isSome || !(sh == "0" || sh == "1") then bad else
     let k : Option Kind := match kind with
-      | "hashmap" => some .hashmap | "bbolt" => some .bbolt | "inj" => some .inj | "reg" => some .reg | _ => none
+      | "hashmap" => some .hashmap | "bbolt" => some .bbolt | "inj" => some .inj | "reg" => some .reg | "pushonly" => some .pushonly | _ => none
     match k with
     | none =>
       -- `db regraw 0`: a fresh runtime registry and nothing else — no provider, not injected
